@@ -33,4 +33,36 @@ def waitEach (truth : Nat → Nat) : List Nat → List (Option Nat) → List Nat
   | active, some i :: t =>
     if i ∈ active then truth i :: waitEach truth (active.erase i) t else 127 :: waitEach truth active t
 
+/-- stage of a pipeline whose stages block on I/O with each other -/
+inductive Flow where
+  | spew (n : Nat)          -- writes n bytes; fails (1) if it cannot get rid of them
+  | cat                     -- copies; fails (1) if it cannot get rid of what it read
+  | drain                   -- reads everything, 0
+  | take (k st : Nat)       -- reads k bytes and exits with st
+  | st (n : Nat)            -- reads nothing, exits with n
+  deriving Repr
+
+def unbounded : Nat := 1000000000
+
+/-- how many bytes the stages downstream will take off a writer -/
+def accept : List Flow → Nat
+  | [] => unbounded
+  | .drain :: _ => unbounded
+  | .take k _ :: _ => k
+  | .st _ :: _ => 0
+  | .spew _ :: _ => 0
+  | .cat :: rest => accept rest
+
+/-- Exit statuses of the stages (`supply` = bytes arriving at the head of the list).  A writer succeeds
+    iff the downstream takes everything it has; otherwise the reader goes away first and the writer
+    fails with EPIPE — nobody blocks for ever.  (Exact when what does not fit exceeds what the pipes
+    in between can buffer; in between the outcome is a race of the script, which the generator avoids.) -/
+def flowStatuses (supply : Nat) : List Flow → List Nat
+  | [] => []
+  | .spew n :: rest => (if n ≤ accept rest then 0 else 1) :: flowStatuses n rest
+  | .cat :: rest => (if supply ≤ accept rest then 0 else 1) :: flowStatuses supply rest
+  | .drain :: rest => 0 :: flowStatuses 0 rest
+  | .take _ st :: rest => st :: flowStatuses 0 rest
+  | .st n :: rest => n :: flowStatuses 0 rest
+
 end YashModel.Proc.Spec
